@@ -270,7 +270,7 @@ CHECKS["C08"] = dict(
          "(LongRun) 3000..9000 successive relayed connections of one process under 1..2 keys: all response salts pairwise distinct. "
          "Non-trivial = at least one reflection under a cipher with a salt of >= 20 bytes. Distinct = canonical case JSON.",
     assumptions=["aes-128-gcm (16-byte salt) is exempt as the statement says", "in-memory connections"],
-    units=[unit("props", ["Salts", "Concurrent", "LongRun"], "C08", crash_is_violation=True)],
+    units=[unit("props", ["Salts", "Concurrent", "LongRun", "Volume"], "C08", crash_is_violation=True)],
 )
 CHECKS["C20"] = dict(
     level="exploration",
